@@ -73,6 +73,18 @@ func elemOf(cur Value, i int) Value {
 	panic(unsupportedf("navigate into %T", cur))
 }
 
+// stepElem follows one pointer path element; a view element yields an array aliasing part of the storage.
+func stepElem(cur Value, e pelem) Value {
+	if e.view > 0 {
+		arr, ok := cur.(*ArrayV)
+		if !ok || e.i+e.view > len(arr.e) {
+			panic(unsupportedf("array view into %T", cur))
+		}
+		return &ArrayV{e: arr.e[e.i : e.i+e.view : e.i+e.view]}
+	}
+	return elemOf(cur, e.i)
+}
+
 func setElem(cur Value, i int, v Value) {
 	switch c := cur.(type) {
 	case *StructV:
@@ -107,7 +119,7 @@ func (h *Heap) load(p PtrV) Value {
 			}
 			return h.wk.selectElem(arr.e, e.sym)
 		}
-		cur = elemOf(cur, e.i)
+		cur = stepElem(cur, e)
 	}
 	return copyVal(cur)
 }
@@ -127,9 +139,18 @@ func (h *Heap) store(p PtrV, v Value) {
 		if e.sym != nil {
 			panic(unsupportedf("symbolic index in the middle of a pointer path"))
 		}
-		cur = elemOf(cur, e.i)
+		cur = stepElem(cur, e)
 	}
 	last := p.path[len(p.path)-1]
+	if last.view > 0 {
+		arr, ok := cur.(*ArrayV)
+		src, ok2 := v.(*ArrayV)
+		if !ok || !ok2 || len(src.e) != last.view {
+			panic(unsupportedf("store through an array view of %T", cur))
+		}
+		copy(arr.e[last.i:last.i+last.view], src.e)
+		return
+	}
 	if last.sym != nil {
 		arr, ok := cur.(*ArrayV)
 		if !ok {
